@@ -16,11 +16,11 @@ func init() {
 	register(&Property{
 		ID: "C02",
 		Explanation: `R02.1 pre-commit write confinement: in every function reachable from the overlay bowl's patching-phase API (NewOverlayBowl, Resume, Save, GetWriter, Transpose, Close and the methods of the entry writers it hands out) no file-system mutator takes a path (or pool) derived from the output folder / target pool, the entry writers' paths come from the stage pool, which is rooted in StageFolder; conversely every mutator whose path derives from OutputFolder sits in a function reachable only from Commit; ` +
-			`R02.2 commit phases run in the required order with errors checked (dirs+symlinks before transpositions and moves; transpositions before overlays and ghost deletion); R02.3 ghosts are deleted longest path first; R02.5 ghost detection covers files, symlinks and dirs on both sides; R02.4 overlay application ends with truncation; ` +
+			`R02.2 commit phases run in the required order with errors checked (directories before transpositions and moves; transpositions before overlays and ghost deletion); R02.10 the phase that makes the new build's symbolic links is dominated by transpositions, moves and ghost deletion (old entries are addressed through their paths: a link made earlier is followed); R02.3 ghosts are deleted longest path first; R02.5 ghost detection covers files, symlinks and dirs on both sides; R02.4 overlay application ends with truncation; ` +
 			`R02.6 index-space consistency: no integer flows both into a use as an index of the new build's file list and into a use as an index of the old build's (bowl, patcher, rediff, diff); R02.7 in the bowl, every MkdirAll of a path derived from a tlc.Dir entry is preceded on every path by Lstat of the same path. ` +
 			`R03.6 (shared) an append to the overlay bowl's work lists is protected by a completed search of the list itself. ` +
 			`R14.7 (shared) each field that OverlayPatchContext.Patch assigns is assigned before it is first read or is zero again on every success return (the bowl applies all overlays of a commit with one context). ` +
-			`R02.9 (shared with C01) where a method of the overlay bowl creates a file (O_CREATE) every path to the open removes what stands at that path first. NOT decided: that the commit result equals the new build, independence from map iteration order in applyTranspositions, kind changes (old non-empty directory -> new file).`,
+			`R02.9 (shared with C01) where a method of the overlay bowl creates a file (O_CREATE) every path to the open removes what stands at that path first. R14.5 (shared) the old-file window of the overlay writer is inspected only below the count read. NOT decided: that the commit result equals the new build, independence from map iteration order in applyTranspositions, kind changes (old non-empty directory -> new file).`,
 		Assumptions: []string{
 			"file-system mutators are the screw/os functions OpenFile(with write flags)/Create/Remove/RemoveAll/Rename/Mkdir/MkdirAll/Symlink/Truncate/Chmod/WriteFile, FsPool.GetWriter and Container.Prepare",
 			"index spaces are recognised from the repository's naming convention: containers/fields whose name contains 'source' denote the new build, 'target' the old build",
@@ -210,6 +210,7 @@ func runC02(c *core.Ctx) {
 	c.Rule("R02.6", "index-space consistency")
 	ruleWorkListDedup(c)
 	ruleCommitWritersReplace(c)
+	ruleWindowInspectedBelowCount(c)
 	ruleUseStartsClean(c, "R14.7", "pwr/overlay", "OverlayPatchContext", "Patch")
 	c.Rule("R02.7", "directories are made after a no-follow look")
 	g := c.P.CallGraph(c.Tier == "thorough")
@@ -356,12 +357,15 @@ func runC02(c *core.Ctx) {
 	// ---- R02.2
 	phase := func(n string) ssa.Instruction {
 		f := c.P.Fn("pwr/bowl", "overlayBowl."+n)
+		if f == nil && n == "ensureDirs" {
+			f = c.P.Fn("pwr/bowl", "overlayBowl.ensureDirsAndSymlinks") // the name before the links got a phase of their own
+		}
 		return firstInstr(commit, func(in ssa.Instruction) bool {
 			cl, ok := in.(*ssa.Call)
 			return ok && f != nil && cl.Call.StaticCallee() == f
 		})
 	}
-	pairs := [][2]string{{"ensureDirsAndSymlinks", "applyTranspositions"}, {"ensureDirsAndSymlinks", "applyMoves"}, {"applyTranspositions", "applyOverlays"}, {"applyTranspositions", "deleteGhosts"}}
+	pairs := [][2]string{{"ensureDirs", "applyTranspositions"}, {"ensureDirs", "applyMoves"}, {"applyTranspositions", "applyOverlays"}, {"applyTranspositions", "deleteGhosts"}}
 	for _, pr := range pairs {
 		a, b := phase(pr[0]), phase(pr[1])
 		if a == nil || b == nil {
@@ -372,6 +376,40 @@ func runC02(c *core.Ctx) {
 		ok := core.InstrDominates(a, b) && ungatedPath(commit, ac, b, nil) == nil
 		c.Check(ok, "R02.2", core.FnName(commit), pr[0]+" completes successfully before "+pr[1], core.InstrPos(b),
 			"dominates, and the later phase is reachable only through the earlier one's nil result", pr[1]+" can run before (or although) "+pr[0]+" has not completed successfully")
+	}
+
+	// ---- R02.10: a symbolic link of the new build can stand where the old build had a file that is renamed
+	// away, or a directory whose entries are deleted or moved. Moves, transpositions and ghost deletion address
+	// the old build's entries through their paths: once the link is made those paths resolve through it (a ghost
+	// below a directory that became a link is deleted in the link's target; a rename whose source path is now a
+	// link moves the link). The phase that makes the links comes after the phases that deal with old paths.
+	c.Rule("R02.10", "links of the new build are made after the old build's paths were dealt with")
+	{
+		var linkPhase ssa.Instruction
+		core.Instrs(commit, func(in ssa.Instruction) {
+			cl, ok := in.(*ssa.Call)
+			if !ok || linkPhase != nil {
+				return
+			}
+			if cal := cl.Call.StaticCallee(); cal != nil && cal.Blocks != nil && strings.HasSuffix(core.PkgPathOf(cal), "/pwr/bowl") &&
+				(callsTransitively(cal, "os.Symlink") || callsTransitively(cal, "github.com/itchio/screw.Symlink")) {
+				linkPhase = in
+			}
+		})
+		if linkPhase == nil {
+			c.Missing("R02.10", core.FnName(commit), "no commit phase that makes symbolic links found")
+		} else {
+			var early []string
+			for _, n := range []string{"applyTranspositions", "applyMoves", "deleteGhosts"} {
+				ph := phase(n)
+				if ph == nil || !core.InstrDominates(ph, linkPhase) {
+					early = append(early, n)
+				}
+			}
+			c.Check(len(early) == 0, "R02.10", core.FnName(commit), "new links are made after transpositions, moves and ghost deletion", core.InstrPos(linkPhase),
+				"the phase that creates symbolic links is dominated by the phases that address old-build paths",
+				"the new build's symbolic links are created before "+strings.Join(early, ", ")+": an old entry that is renamed away or deleted and whose path (or whose directory's path) is a link in the new build is then reached through the link")
+		}
 	}
 
 	// ---- R02.7: a directory of the new build is made only after a look, without following links, at what
